@@ -1,3 +1,5 @@
-From GoMC Require Import Base.Dec Model.C05.
+From GoMC Require Import Base.Dec Base.GoInt Model.C05 Gen.C05gen.
 Require Import ExtrOcamlBasic.
-Extraction "c05_model.ml" run_flat write32 len32 write64 len64 read32 read64 leb128.
+Extraction "c05_model.ml" run_flat write32 len32 write64 len64 read32 read64 leb128
+  packet_VarInt_ReadFrom_io packet_VarLong_ReadFrom_io packet_VarInt_WriteTo_io packet_VarLong_WriteTo_io
+  packet_readByte_io.
